@@ -26,7 +26,9 @@ RULE = ('states = interleavings of {load, load(force), enforce, edit (toggle '
 RULE += (
          ' One shared default (svc:ref) refers by rule: to a policy the'
          ' files redefine; the comparison enforcer registers brand-new'
-         ' default objects.')
+         ' default objects.'
+         ' Topologies t1absent / t2absent: a policy file that does not'
+         ' exist until the first edit.')
 ASSUMPTIONS = ['same canonicalisation argument as C10',
                'fresh comparison enforcers are the implementation itself']
 
@@ -44,12 +46,17 @@ TOPOLOGIES = {
     't2shared': [('A', False, False), ('A', True, False)],
     't2late': [('A', False, True), ('B', True, False)],
     't3': [('A', False, False), ('A', True, False), ('B', False, True)],
+    # lower-case directory: its policy file does not exist at first (the
+    # first 'edit' creates it)
+    't1absent': [('n', False, False)],
+    't2absent': [('A', False, False), ('n', True, False)],
 }
 BOUNDS = {
     'quick': [('t1', 8), ('t1late', 8), ('t2own', 6), ('t2shared', 8),
-              ('t2late', 6), ('t3', 4)],
+              ('t2late', 6), ('t3', 4), ('t1absent', 7), ('t2absent', 5)],
     'thorough': [('t1', 12), ('t1late', 12), ('t2own', 14), ('t2shared', 14),
-                 ('t2late', 14), ('t3', 8)],
+                 ('t2late', 14), ('t3', 8), ('t1absent', 12),
+                 ('t2absent', 10)],
 }
 
 
@@ -98,6 +105,9 @@ class System:
         for d, _, _ in self.topo:
             if d not in self.content:
                 self.w.mkdir(d)
+                if d.islower():
+                    self.content[d] = None
+                    continue
                 self.w.write('%s/policy.yaml' % d,
                              world.dumps_policy(FILES['x0'], 'json'))
                 self.content[d] = 'x0'
@@ -180,13 +190,17 @@ class System:
         times = set()
         files = {}
         for d, cid in self.content.items():
+            if cid is None:
+                files[d] = (None, None)
+                continue
             t = os.path.getmtime(self.w.path('%s/policy.yaml' % d))
             files[d] = (cid, t)
             times.add(t)
         fps = [c10.fingerprint(vars(e), self.w.root, times, skip=('conf',))
                for e in self.enfs]
         rank = {t: i for i, t in enumerate(sorted(times))}
-        form = {'files': {d: [c, rank[t]] for d, (c, t) in files.items()},
+        form = {'files': {d: [c, None if t is None else rank[t]]
+                          for d, (c, t) in files.items()},
                 'enfs': [c10.rerank(fp, rank) for fp in fps],
                 'registered': self.registered,
                 'shared': [s[:3] + s[4:6] for s in snap_shared(self.shared)]}
